@@ -964,6 +964,17 @@ def scenarios_delete():
                        'MIGRATION')}))
     out.append(('delete vs reshape moving the consumer', {
         'A': delete_alloc(K1), 'B': reshape_move(R, 'VCPU', C)}))
+    # provider deletion racing writers of that provider
+    out.append(('provider delete vs aggregates 1.1 (no generation)', {
+        'A': delete_rp(E), 'B': put_aggs(E, 'cur', [A1, A2], '1.1')}))
+    out.append(('provider delete vs aggregates', {
+        'A': delete_rp(E), 'B': put_aggs(E, 'cur', [A1])}))
+    out.append(('provider delete vs traits', {
+        'A': delete_rp(E), 'B': put_traits(E, 'cur', ['CUSTOM_T1'])}))
+    out.append(('provider delete vs inventories', {
+        'A': delete_rp(E), 'B': put_invs(E, 'cur', INV3)}))
+    out.append(('provider delete vs post inventory', {
+        'A': delete_rp(E), 'B': post_inv(E, 'DISK_GB', 7)}))
     out.append(('delete vs rewrite vs claim', {
         'A': delete_alloc(K1),
         'B': put_alloc(K1, {E: {'VCPU': 2}}, 'cur'),
